@@ -112,6 +112,9 @@ func (fc *FnCtx) callAnchor(c *ssa.CallCommon, fnv Val) string {
 				}
 			}
 			fc.anchors[cc] = fmt.Sprintf("%s#%d", name, count[name])
+			if fn == fc.fn {
+				fc.note("anchor %s#%d at %s", name, count[name], fc.eng.pos(in.Pos()))
+			}
 			count[name]++
 		}
 	}
